@@ -212,6 +212,18 @@ def main(root, args):
         seed = int(os.environ.get("VERIF_SEED", "1"))
     except ValueError:
         seed = 1
+    if replay:
+        # a replay re-runs the recorded failing cases: same tier and seed (the generators are
+        # deterministic in them), restricted by the harness to the recorded case ids
+        try:
+            rj = json.load(open(replay))
+            if rj.get("tier") in ("quick", "thorough"):
+                tier = rj["tier"]
+            if isinstance(rj.get("seed"), int):
+                seed = rj["seed"]
+        except Exception as e:
+            print("cannot read replay file %s: %s" % (replay, e)); return 2
+        replay = os.path.abspath(replay)
     props = load_props(root)
     if pid not in props:
         print("unknown property", pid); return 2
